@@ -822,6 +822,11 @@ def _cnode_of(g, node):
     return None
 
 
+def is_null_expr(e):
+    from .ast import is_null
+    return is_null(e)
+
+
 def rule_E5(ctx, prog, label, rule='E5'):
     from .cfg import cfg_of
     rr = RuleResult(rule, 'allocator caches: a block handed out leaves its slot, an evicted block is released, cleanup empties every slot, views never free their parent')
@@ -999,12 +1004,50 @@ def rule_E5(ctx, prog, label, rule='E5'):
                 for l2 in prog.func(fn).body.find('ForStmt'):
                     if strip(l2.kids[2]).kind == 'BinaryOperator':
                         other.append(pp(strip(l2.kids[2]).kids[1]))
-            if frees and zero and all(b == bound for b in other):
+            # occupancy is decided by one field: the field that guards the release is the field that is reset,
+            # otherwise a second cleanup (m4ri_fini is also a destructor) releases the same pointers again
+            guard_ok = True
+            gwhy = ''
+            for c in frees:
+                par = None
+                for n_ in body.walk():
+                    if n_.kind == 'IfStmt' and any(x is c for x in n_.kids[1].walk()):
+                        par = n_
+                if par is not None:
+                    gf = [x.name for x in par.kids[0].walk() if x.kind == 'MemberExpr' and x.name in ('size', 'data')]
+                    reset = set(pp(strip(n_.kids[0], casts=True)).rsplit('.', 1)[-1] for n_ in body.walk()
+                                if n_.kind == 'BinaryOperator' and n_.op == '=' and (int_value(n_.kids[1]) == 0 or is_null_expr(n_.kids[1])))
+                    if gf and not all(x in reset for x in gf):
+                        guard_ok = False
+                        gwhy = 'the release is guarded by `.%s` but the loop resets only %s: a second cleanup releases the same blocks again' % (gf[0], sorted('.' + r for r in reset))
+            if frees and zero and all(b == bound for b in other) and guard_ok:
                 ok = True
+            elif frees and zero and not guard_ok:
+                why = gwhy
             elif frees and zero:
                 why = 'cleanup loop bound `%s` differs from the slot search bounds %s' % (bound, other)
         ob(ok, 'cleanup-empties-every-slot', 'the cleanup loop covers the same slot range as malloc/free, releases occupied slots and zeroes their size', f, why)
     if cfg['mzdcache']:
+        # ---- 7. mzd_t_malloc takes entries only from a block with room (predicate abstraction, m4lint/slab.py)
+        from .slab import Slab
+        f = prog.func('mzd_t_malloc')
+        S = Slab(f)
+        if S.cursor is None or S.ret is None:
+            raise AnalysisBroken('E5: mzd_t_malloc no longer has a block cursor / result variable')
+        nstates = S.run()
+        takes = [n for n in f.body.walk() if n.kind == 'CompoundAssignOperator' and n.op == '|=' and 'current_cache' in pp(n.kids[0])]
+        if not takes:
+            raise AnalysisBroken('E5: no entry is taken from current_cache in mzd_t_malloc any more')
+        kinds = sorted(set(k for k, _e in S.problems))
+        why = ''
+        if 'take-from-full' in kinds:
+            e = [e for k, e in S.problems if k == 'take-from-full'][0]
+            why = ('an entry is taken at line %s while current_cache may still be a completely used block (the search left it on a full block): '
+                   'log2_floor(~used) is then 0 and the live header in entry 0 is handed out a second time' % e.line)
+        elif kinds:
+            e = S.problems[0][1]
+            why = 'the block cursor may be NULL where it is used at line %s (%s)' % (e.line, kinds[0])
+        ob(not S.problems, 'header-from-block-with-room', 'mzd_t_malloc takes an entry only from a block that has a free one, in all %d reachable abstract states' % nstates, f, why)
         # ---- 6. mzd_t_free unlink
         f = prog.func('mzd_t_free')
         g = cfg_of(f)
